@@ -37,6 +37,19 @@ def report(c, fails, which):
                     {"segment": sg[:idx + 1], "reason": reason})
 
 
+def _ages(c, pkg, test, ov):
+    """The item-level part calls unexported functions; a tree in which their signatures differ cannot be driven
+    that way -- the middleware-level harness (public API only) still decides."""
+    try:
+        out, _ = c.go_harness(pkg, test, rewrites=ov, files=["c04_test.go", "c04ages_test.go"])
+    except Undecided as e:
+        if "build failed" not in str(e):
+            raise
+        c.notes.append("%s %s does not build against this tree (internal signatures differ); item-level part skipped" % (pkg, test))
+        return []
+    return read_ndjson(out)
+
+
 def run(c: Check):
     th = c.thorough
     c.tlc_mc("CacheCore", "CacheCore_mc.cfg", coverage=th, name="3 keys, TTL 1-3 s, quarter-second clock, horizon 4 s")
@@ -51,11 +64,10 @@ def run(c: Check):
     # simple cache (dnsserver module)
     ov = clock_overlay(c, ["internal/dnsserver/cache/cache.go"])
     ov.update(common(c, "cache", "internal/dnsserver/cache"))
-    out, _ = c.go_harness("internal/dnsserver/cache", "^TestVerifC04Simple$", rewrites=ov,
+    out, _ = c.go_harness("internal/dnsserver/cache", "^TestVerifC04Simple$", rewrites=ov, files=["c04_test.go"],
                           env={"VERIF_IN": inp, "VERIF_NRANDOM": nrand})
     ev = read_ndjson(out)
-    out2, _ = c.go_harness("internal/dnsserver/cache", "^TestVerifC04SimpleAges$", rewrites=ov)
-    ev_ages = read_ndjson(out2)
+    ev_ages = _ages(c, "internal/dnsserver/cache", "^TestVerifC04SimpleAges$", ov)
     report(c, c.validate_segments("TraceCacheCore", "TraceCacheCore.cfg", ev + ev_ages, timeout=1800), "simple")
     # ECS-aware cache
     ov = clock_overlay(c, ["internal/ecscache/cache.go"])
@@ -63,8 +75,7 @@ def run(c: Check):
     out3, _ = c.go_harness("internal/ecscache", "^TestVerifC04ECS$", rewrites=ov, files=["c04_test.go"],
                            env={"VERIF_IN": inp, "VERIF_NRANDOM": nrand})
     ev3 = read_ndjson(out3)
-    out4, _ = c.go_harness("internal/ecscache", "^TestVerifC04ECSAges$", rewrites=ov, files=["c04_test.go"])
-    ev4 = read_ndjson(out4)
+    ev4 = _ages(c, "internal/ecscache", "^TestVerifC04ECSAges$", ov)
     report(c, c.validate_segments("TraceCacheCore", "TraceCacheCore.cfg", ev3 + ev4, timeout=1800), "ecs")
     hits = 0
     late = 0
